@@ -1,1 +1,12 @@
 import XPathV.Theorems.C07
+#print axioms XPathV.Theorems.C07.cmp_table_ok
+#print axioms XPathV.Theorems.C07.leaf_comparators_ok
+#print axioms XPathV.Theorems.C07.cells_do_not_panic
+#print axioms XPathV.Theorems.C07.cell_numNum
+#print axioms XPathV.Theorems.C07.cell_setNum
+#print axioms XPathV.Theorems.C07.cell_numSet
+#print axioms XPathV.Theorems.C07.cell_strStr_eq
+#print axioms XPathV.Theorems.C07.cell_strStr_ne
+#print axioms XPathV.Theorems.C07.cell_setSet_eq
+#print axioms XPathV.Theorems.C07.cell_setSet_ne
+#print axioms XPathV.Theorems.C07.asBool_spec
